@@ -172,6 +172,18 @@ fn one<const D: usize>(c: &Value) -> Value {
     })
 }
 
+/// the concurrent passes need one OS thread per sampler: when the machine refuses one, say so and stop (exit code 75);
+/// threads already waiting at the barrier would otherwise wait for ever
+fn spawn_or_exit<F: FnOnce() -> Value + Send + 'static>(f: F) -> std::thread::JoinHandle<Value> {
+    match std::thread::Builder::new().spawn(f) {
+        Ok(h) => h,
+        Err(e) => {
+            eprintln!("failed to spawn thread: {e}");
+            std::process::exit(75);
+        }
+    }
+}
+
 static STRESS_BARRIER: std::sync::Mutex<Option<Arc<Barrier>>> = std::sync::Mutex::new(None);
 
 /// one sampler on its own thread, started together with the others: `rounds` passes over the first ops of the case;
@@ -220,7 +232,7 @@ pub fn run(input: &Value) -> Value {
             .iter()
             .map(|c| {
                 let c = c.clone();
-                std::thread::spawn(move || {
+                spawn_or_exit(move || {
                     std::panic::set_hook(Box::new(|_| {}));
                     crate::cmd_table::dispatch_d(&c, [stress::<1>, stress::<2>, stress::<3>, stress::<4>, stress::<5>, stress::<6>])
                 })
@@ -237,7 +249,7 @@ pub fn run(input: &Value) -> Value {
             .iter()
             .map(|c| {
                 let c = c.clone();
-                std::thread::spawn(move || {
+                spawn_or_exit(move || {
                     std::panic::set_hook(Box::new(|_| {}));
                     guarded(move || crate::cmd_table::dispatch_d(&c, [one::<1>, one::<2>, one::<3>, one::<4>, one::<5>, one::<6>]))
                 })
